@@ -492,6 +492,9 @@ class Interp:
                 return base[3][base[2].index(e.attr)]
             if isinstance(base, SStr):
                 return ('symmethod', base, e.attr)
+            if isinstance(base, Key) and e.attr in ('endswith', 'startswith', 'strip', 'lstrip', 'rstrip', 'lower', 'upper', 'split', 'partition', 'splitlines', 'find',
+                                                     'index', 'count', 'replace', 'isspace', 'isdigit'):
+                base = base.spelling      # text methods of a case-insensitive string work on its spelling
             if isinstance(base, str) and e.attr in ('endswith', 'startswith', 'strip', 'lstrip', 'rstrip', 'lower', 'upper', 'join', 'split', 'partition',
                                                      'format', 'splitlines', 'index', 'find', 'rsplit', 'rpartition', 'replace', 'count'):
                 return ('strmethod', base, e.attr)
@@ -505,6 +508,8 @@ class Interp:
             l = self.ev(e.left, env, cls)
             r = self.ev(e.comparators[0], env, cls)
             op = e.ops[0]
+            if isinstance(op, (ast.In, ast.NotIn)) and isinstance(r, Key) and isinstance(l, (str, SStr)):
+                r = r.spelling          # substring test on the text of a case-insensitive string
             if isinstance(l, (SStr, SInt)) or isinstance(r, (SStr, SInt)) or any(isinstance(x, tuple) and x and x[0] == 'linecount' for x in (l, r)):
                 return self.sym_compare(l, op, r, e)
             if isinstance(op, (ast.Is, ast.IsNot)):
@@ -1228,6 +1233,20 @@ class Interp:
                 return None
             if isinstance(st.value, ast.Call) and isinstance(st.value.func, ast.Attribute) and isinstance(st.value.func.value, ast.Call) \
                     and norm(st.value.func.value.func) == 'super':
+                # super().m(...): the next definition of m after the current class in the object's MRO (within the analysed
+                # modules; object / abstract bases outside them have nothing to run)
+                me = env.get('self')
+                if isinstance(me, Ref) and cls and h.objs[me.name]['__class__'] in h.module.classes:
+                    mro = h.module.mro(h.objs[me.name]['__class__'])
+                    if cls in mro:
+                        for c_ in mro[mro.index(cls) + 1:]:
+                            home = h.module._home(c_) if hasattr(h.module, '_home') else h.module
+                            fn_ = home.funcs.get('%s.%s' % (c_, st.value.func.attr)) if home is not None else None
+                            if fn_ is not None:
+                                args_ = [self.ev(a_, env, cls) for a_ in st.value.args]
+                                kw_ = {k_.arg: self.ev(k_.value, env, cls) for k_ in st.value.keywords if k_.arg}
+                                self.call(Closure(fn_.node, {}, me, fn_.cls), args_, kw_)
+                                break
                 return None
             self.ev(st.value, env, cls)
             return None
@@ -1272,6 +1291,8 @@ class Interp:
                 if isinstance(t, ast.Subscript):
                     base = self.ev(t.value, env, cls)
                     h.dict_del(base, self.ev(t.slice, env, cls), st.lineno)
+                elif isinstance(t, ast.Name):
+                    env.pop(t.id, None)
                 else:
                     raise AnalysisError('heap model: del %s' % norm(t))
             return None
